@@ -183,7 +183,10 @@ enumerated; this section only records where the build differs from the design.
 * **C06** as designed plus sender-report leg, sequence wrap placed inside plans, RTP time 0 and 2^32 crossing, and (after
   seed C06-6) thirteen short demuxer lifetimes with the RTP timestamps of a stream with B pictures (neighbouring
   presentation times swapped, so timestamps also go backwards) crossing the 32-bit boundary after 1..12 access units.
-* **C07** `Contain.tla` models stage-wise recovery (item / once / none) instead of a per-fault-class liveness
+* **C07** (late) the session leg now requires that the stream goes on relaying after every well-framed hostile frame
+  (unknown channel, empty frame, RTP header too short - these closed the publisher's connection: repaired in 1d40116);
+  good frames alternate between single-NAL packets and fragmentation units, and "a fragmentation unit begun and never
+  finished" is a fault class (seed C07-4). `Contain.tla` models stage-wise recovery (item / once / none) instead of a per-fault-class liveness
   model; the fault space is in `FaultCases.tla` / `HostileCases.tla`; level is `model_checking` (the design said
   fault_enumeration: the enumeration is still the bulk, but the containment design itself is model checked with
   negative controls). Added after the seeds: SDP variants without parameter sets (the good stream then repeats them
@@ -217,7 +220,9 @@ enumerated; this section only records where the build differs from the design.
 * **C14** (late) the negotiated channel numbers vary per case (seed C14-6) and sixteen goroutines encode and parse back
   their own messages side by side (seed C14-4: a pooled helper returned too early). `Wire` became `WireReader` (design model) + `WireCases` / `WireFaults` / `RtspWire`; the dispatcher is reached through a verif-only
   export.
-* **C15** `CodecSyntax` became `ParamCases` (branch space) + `ParamProp` (derivations) with bit-exact encoders in
+* **C15** (late) the H.265 case space got a reference-picture-set chain in which a predicted picture falls on dPoc 0
+  (exposed the uint8 sign computation repaired in e8b7e59); the AudioSpecificConfig is observed through
+  `aac.MetadataIsReady`, the function the server uses, not through a copy of its logic (seed C15-6). `CodecSyntax` became `ParamCases` (branch space) + `ParamProp` (derivations) with bit-exact encoders in
   the harness; the H.265 fixed-rate flag is not judged (no such flag in the standard's VUI).
 * **C16-C19** as designed.
 * **Management API** (not in the original design): `MgmtApi.tla` is a reference model of service/apis.go; its replay is a
